@@ -19,7 +19,7 @@ prop('C01',
      kani=['vk_year_flags_table', 'vk_year_flags_derived', 'vk_mdf_tables', 'vk_mdf_from_ol_with', 'vk_date_bits', 'vk_date_consts',
            'vk_date_from_ordinal_and_flags', 'vk_date_from_yo_opt', 'vk_date_from_ymd_opt', 'vk_date_accessors', 'vk_date_weekday',
            'vk_date_forms_unique', 'vk_date_iso_week', 'vk_date_isoywd_sound', 'vk_date_isoywd_complete', 'vk_isoweek_ord',
-           'vk_date_succ_pred', 'vk_date_ord_lex'],
+           'vk_date_succ_pred', 'vk_date_ord_lex', 'vk_date_quarter_ce_dim'],
      uncovered=['deprecated panicking constructors from_ymd/from_yo/from_isoywd/from_num_days_from_ce/succ/pred (expect wrappers)',
                 'Date<Tz> (deprecated)', 'Datelike::num_days_from_ce provided method for types other than NaiveDate'],
      text='Kani proves, over full i32/u32 argument domains and every valid packed date, the bit-packed/table kernel '
